@@ -61,7 +61,7 @@ def case_coq(c):
             ops.append("HRestart")
         elif k == "read":
             ops.append("HRead [%s]" % "; ".join(str(n) for n in o["ns"]))
-    return "(Cf %d %d, %s, [%s])" % (c["cap"], c["first_block"], st_coq(c["init"]), "; ".join(ops))
+    return "(Cf %d %d, %s, ([%s] : list hop))" % (c["cap"], c["first_block"], st_coq(c["init"]), "; ".join(ops))
 
 
 def impl_obs(o):
@@ -488,9 +488,16 @@ def run(rep):
         if "pushed>=3" in fs and "submitted" in fs and len(fs) >= 4:
             nontrivial.add(json.dumps([c["first_block"], c["init"], c["ops"]], sort_keys=True))
     sample_ids = [i for i in range(len(cases)) if len(cases[i]["ops"]) <= 14][:3]
-    mm, samp = common.run_model_cases("C08", PREAMBLE, "Model.BlockStore.run_case", coq_cases,
-                                      shard_size=max(4, len(coq_cases) // 16 + 1) if tier == "quick" else 40,
-                                      sample_ids=sample_ids, timeout=1500)
+    mm, samp = {}, {}
+    try:
+        if coq_cases:
+            mm, samp = common.run_model_cases("C08", PREAMBLE, "Model.BlockStore.run_case", coq_cases,
+                                              shard_size=max(4, len(coq_cases) // 16 + 1) if tier == "quick" else 40,
+                                              sample_ids=sample_ids, timeout=1500)
+    except RuntimeError as e:
+        if not pred_fail:
+            raise common.MachineryError("model evaluation failed: " + str(e)[-1500:])
+        broken.append("model evaluation failed: " + str(e)[-300:])
     if mm:
         broken.append(f"correspondence vh blockstore vs Model.BlockStore.run_case: {len(mm)} disagreeing cases")
     searched = 0
